@@ -215,7 +215,7 @@ pub fn serde_check(w: &mut World, text: &TextRef, reader: Bk, artifact: Artifact
         Out::Panic(p) => w.violate("C04", "panic", reader, &op, "", p),
     }
     // a non-string JSON document must be rejected
-    for bad in ["123", "null", "[\"x\"]", "{}"] {
+    for bad in ["123", "-1", "1.5", "true", "null", "[\"x\"]", "[]", "{}", "{\"k\":\"v\"}"] {
         if let Out::Ok(v) = be.serde_parse(artifact, bad) {
             w.violate("C09", "serde-accepts-non-string", reader, &op, bad, format!("deserialised {bad} into {v}"));
         }
